@@ -132,13 +132,37 @@ theorem haversine_nonneg (hR : 0 ≤ F.R) (hsqrt : ∀ x, 0 ≤ F.sqrt x)
     0 ≤ distanceHaversine F p q := haversine_nonneg' F hR hsqrt hatan p q
 
 /-- The clamp `a = math.Min(a, 1)` (fix eb6ce31) keeps the argument of the second square root
-    non-negative whatever `a` rounds to: no NaN from `sqrt(1 - a)` for (nearly) antipodal points. -/
+    non-negative for every field value of `a`, given `min a b ≤ b` (the law is witnessed for
+    `exampleFn` below): no negative argument of `sqrt(1 - a)` for (nearly) antipodal points, where `a`
+    rounds to `1 + ulp`.  This is a statement over an ordered field, where there is no NaN; Go's
+    `math.Min(NaN, 1)` is NaN, so on floats a NaN `a` (non-finite coordinates only) still propagates —
+    the driver's clause `haversine-half-circumference nan-near-antipodal` judges the float outcome. -/
 theorem haversine_sqrt_arg_nonneg (hmin : ∀ a b, F.min a b ≤ b) (p q : Pt α) :
     0 ≤ 1 - F.min (havA F p q) 1 := haversine_sqrt_arg_nonneg' F hmin p q
 
-/-- The antimeridian fold: the folded longitude difference never exceeds `π`
-    (given `abs x ≤ 2π` for the differences that occur, i.e. longitudes within ±180°). -/
-theorem distance_fold_le_pi (x : α) (h2 : F.abs x ≤ 2 * F.pi) (hpi : 0 ≤ F.pi) :
+/-- Both square-root arguments of `DistanceHaversine` are non-negative for latitudes whose cosine is
+    non-negative (±90°), given `min a b ≤ b` and `min` of non-negatives non-negative. -/
+theorem haversine_sqrt_args_nonneg (hmin : ∀ a b, F.min a b ≤ b)
+    (hmin0 : ∀ a b, 0 ≤ a → 0 ≤ b → 0 ≤ F.min a b) (p q : Pt α)
+    (hp : 0 ≤ F.cos (deg2rad F p.y)) (hq : 0 ≤ F.cos (deg2rad F q.y)) :
+    0 ≤ F.min (havA F p q) 1 ∧ 0 ≤ 1 - F.min (havA F p q) 1 :=
+  haversine_sqrt_args_nonneg' F hmin hmin0 p q hp hq
+
+/-- The antimeridian fold, stated on `distance` itself: for longitudes within ±180° (the property's
+    quantifier) `geo.Distance` is `√(Δφ² + (f·cos φ_m)²)·R` where the folded longitude difference
+    `f = lonFold F p q` lies in `[0, π]` — the short way round, also for pairs straddling the
+    antimeridian.  Needs only `abs ≥ 0`, `abs x ∈ {x, −x}` and `π ≥ 0`. -/
+theorem distance_fold_le_pi (habs0 : ∀ x, 0 ≤ F.abs x) (habs : ∀ x, F.abs x = x ∨ F.abs x = -x)
+    (hpi : 0 ≤ F.pi) (p q : Pt α) (hp1 : -180 ≤ p.x) (hp2 : p.x ≤ 180) (hq1 : -180 ≤ q.x) (hq2 : q.x ≤ 180) :
+    (0 ≤ lonFold F p q ∧ lonFold F p q ≤ F.pi) ∧
+    distance F p q =
+      F.sqrt (deg2rad F (p.y - q.y) * deg2rad F (p.y - q.y) +
+        (lonFold F p q * F.cos (deg2rad F ((p.y + q.y) / 2))) *
+        (lonFold F p q * F.cos (deg2rad F ((p.y + q.y) / 2)))) * F.R :=
+  ⟨lonFold_range' F habs0 habs hpi p q hp1 hp2 hq1 hq2, distance_eq_lonFold' F p q⟩
+
+/-- The bare inequality behind it, for any `x` with `abs x ≤ 2π` (kept: the earlier form of the clause). -/
+theorem fold_le_pi (x : α) (h2 : F.abs x ≤ 2 * F.pi) (hpi : 0 ≤ F.pi) :
     (if F.pi < F.abs x then 2 * F.pi - F.abs x else F.abs x) ≤ F.pi ∧
     (0 ≤ F.abs x → 0 ≤ (if F.pi < F.abs x then 2 * F.pi - F.abs x else F.abs x)) :=
   distance_fold_le_pi' F x h2 hpi
@@ -150,9 +174,18 @@ def dest_distance_full (lim89 lim5000km : α) : Prop :=
   ∀ (p : Pt α) (β d : α), -lim89 ≤ p.y → p.y ≤ lim89 → 0 ≤ d → d ≤ lim5000km →
     distanceHaversine F p (pointAtBearingAndDistance F p β d) = d
 
-/-- The midpoint is equidistant from both ends. -/
-def midpoint_equidistant_full : Prop :=
-  ∀ (p q : Pt α), distanceHaversine F p (midpoint F p q) = distanceHaversine F (midpoint F p q) q
+/-- The midpoint is equidistant from both ends — for pairs at least `margin` short of antipodal
+    (`H(p,q) < πR − margin`; the check uses `margin` = 1 km).  Without the exclusion the statement is
+    false over ℝ: for `p = (0,0)`, `q = (180,0)` the formula gives `m = p`, and `0 ≠ πR`; close to
+    antipodal the midpoint is ill-conditioned. -/
+def midpoint_equidistant_full (margin : α) : Prop :=
+  ∀ (p q : Pt α), distanceHaversine F p q < F.pi * F.R - margin →
+    distanceHaversine F p (midpoint F p q) = distanceHaversine F (midpoint F p q) q
+
+/-- … and half-way: twice its distance from either end is the distance between the ends. -/
+def midpoint_halfway_full (margin : α) : Prop :=
+  ∀ (p q : Pt α), distanceHaversine F p q < F.pi * F.R - margin →
+    2 * distanceHaversine F p (midpoint F p q) = distanceHaversine F p q
 
 /-- Haversine and equirectangular distance agree to one part in 10⁵ under 10 km below 80°. -/
 def equirect_agreement_full (lim80 lim10km : α) : Prop :=
@@ -162,7 +195,8 @@ def equirect_agreement_full (lim80 lim10km : α) : Prop :=
 end distance
 
 /-- Non-vacuity: `exampleFn` (C18Lemmas) is a concrete `Fn ℚ` satisfying every hypothesis used above (`sin` odd, `abs` even,
-    `sqrt ≥ 0`, `atan2` within `[0, π/2]`, `R ≥ 0`), and a concrete unclosed triangle with non-zero area. -/
+    `sqrt ≥ 0`, `atan2` within `[0, π/2]`, `R ≥ 0`; the `min` / `abs` / `π` / `cos` laws in the third example),
+    and a concrete unclosed triangle with non-zero area. -/
 example : ringArea exampleFn [⟨0, 0⟩, ⟨60, 0⟩, ⟨60, 60⟩] = 2 ∧
     ringArea exampleFn [⟨0, 0⟩, ⟨60, 0⟩, ⟨60, 60⟩, ⟨0, 0⟩] = 2 ∧
     ringArea exampleFn [⟨60, 60⟩, ⟨60, 0⟩, ⟨0, 0⟩] = -2 := by
@@ -172,5 +206,18 @@ example : (∀ x, exampleFn.sin (-x) = -exampleFn.sin x) ∧ (∀ x, exampleFn.a
     (0 : Rat) ≤ exampleFn.R ∧ (∀ x, 0 ≤ exampleFn.sqrt x) ∧
     (∀ y x : Rat, 0 ≤ y → 0 ≤ x → 0 ≤ exampleFn.atan2 y x ∧ exampleFn.atan2 y x ≤ exampleFn.pi / 2) :=
   exampleFn_laws
+
+/-- … and the hypotheses of `haversine_sqrt_arg_nonneg`, `haversine_sqrt_args_nonneg` and
+    `distance_fold_le_pi`: `min a b ≤ b`, `min` of non-negatives non-negative, `abs ≥ 0`,
+    `abs x ∈ {x, −x}`, `π ≥ 0`, `cos ≥ 0`. -/
+example : (∀ a b : Rat, exampleFn.min a b ≤ b) ∧
+    (∀ a b : Rat, 0 ≤ a → 0 ≤ b → 0 ≤ exampleFn.min a b) ∧
+    (∀ x : Rat, 0 ≤ exampleFn.abs x) ∧ (∀ x : Rat, exampleFn.abs x = x ∨ exampleFn.abs x = -x) ∧
+    (0 : Rat) ≤ exampleFn.pi ∧ (∀ x : Rat, 0 ≤ exampleFn.cos x) := exampleFn_laws2
+
+/-- The fold is exercised by a concrete pair straddling the antimeridian: 179° vs −179° folds
+    `|358°|` to `2π − 358·π/180 = π/90` (with `π := 3`: `1/30`), not to `358·π/180`. -/
+example : lonFold exampleFn ⟨179, 0⟩ ⟨-179, 0⟩ = 1 / 30 ∧ lonFold exampleFn ⟨10, 0⟩ ⟨-20, 0⟩ = 1 / 2 := by
+  refine ⟨?_, ?_⟩ <;> decide +kernel
 
 end Orb.Geo
